@@ -43,25 +43,27 @@ fn verif_root() -> String {
 }
 
 /// (engine, runs) per property and tier. Budgets are counts, not seconds, so the set of seeds
-/// explored is the same on every machine.
+/// explored is the same on every machine. The thorough counts are sized for roughly 20-50 minutes
+/// per property on 16 idle cores (a thorough C02 / C11 / C12 run is much deeper per history than a
+/// quick one: all commits, all word subsets, more page sizes, second-level crashes everywhere).
 fn plan(prop: &str, tier: &str) -> (&'static str, u64) {
     let thorough = tier == "thorough";
     match prop {
         "C01" => ("seq", if thorough { 1200000 } else { 24000 }),
-        "C05" => ("seq", if thorough { 1200000 } else { 24000 }),
+        "C05" => ("seq", if thorough { 800000 } else { 24000 }),
         "C06" => ("seq", if thorough { 600000 } else { 20000 }),
-        "C07" => ("seq", if thorough { 400000 } else { 10000 }),
+        "C07" => ("seq", if thorough { 300000 } else { 10000 }),
         "C08" => ("seq", if thorough { 120000 } else { 6000 }),
         "C03" => ("seq", if thorough { 500000 } else { 8000 }),
-        "C02" => ("crash", if thorough { 16000 } else { 1200 }),
-        "C11" => ("fault", if thorough { 5000 } else { 320 }),
+        "C02" => ("crash", if thorough { 1200 } else { 1200 }),
+        "C11" => ("fault", if thorough { 600 } else { 320 }),
         "C10" => ("long", if thorough { 5000 } else { 800 }),
         "C16" => ("cfg", if thorough { 320 } else { 128 }),
-        "C15" => ("compat", if thorough { 1000000 } else { 8000 }),
+        "C15" => ("compat", if thorough { 700000 } else { 8000 }),
         "C04" => ("shuttle", if thorough { 2000000 } else { 160000 }),
         "C09" => ("shuttle", if thorough { 500000 } else { 32000 }),
         "C13" => ("shuttle", if thorough { 4000000 } else { 60000 }),
-        "C12" => ("corrupt", if thorough { 16000 } else { 480 }),
+        "C12" => ("corrupt", if thorough { 1500 } else { 480 }),
         _ => ("none", 0),
     }
 }
